@@ -21,7 +21,7 @@ package ocsp
 //@   ensures[C05] answer_is_about_this_certificate: called(OCSPRevocationChecker.parseOcspResponse#1) && res(OCSPRevocationChecker.parseOcspResponse#1, 1) == nil ==> big(res(OCSPRevocationChecker.parseOcspResponse#1, 0).SerialNumber) == big(clientCertificate.SerialNumber)
 //@   ensures[C14,C05] only_answers_are_cached: called(CacheTable.Add#1) ==> called(OCSPRevocationChecker.parseOcspResponse#1) && res(OCSPRevocationChecker.parseOcspResponse#1, 1) == nil && arg(CacheTable.Add#1, 2) > 0
 //@   ensures[C14] cache_key_names_issuer_and_serial: called(OCSPRevocationChecker.tryGetResponseFromCache#1) ==> arg(OCSPRevocationChecker.tryGetResponseFromCache#1, 1) == cacheKeyOf(clientCertificate)
-//@   ensures[C14] lookup_and_store_use_the_same_key: called(CacheTable.Add#1) ==> arg(CacheTable.Add#1, 1) == arg(OCSPRevocationChecker.tryGetResponseFromCache#1, 1)
+//@   ensures[C14] lookup_and_store_use_the_same_key: called(CacheTable.Add#1) ==> typeis(arg(CacheTable.Add#1, 1), string) && as(arg(CacheTable.Add#1, 1), string) == arg(OCSPRevocationChecker.tryGetResponseFromCache#1, 1)
 //@   loop 1 invariant ocspOK(c)
 //@   loop 2 invariant ocspOK(c)
 //@   loop 1 iter_ensures[C02] failed_responder_does_not_end_the_search: !(called(OCSPRevocationChecker.parseOcspResponse#1) && res(OCSPRevocationChecker.parseOcspResponse#1, 1) == nil)
